@@ -12,6 +12,7 @@ Outside the theorem (correspondence and testing in checks/c03.py): the Büchi fo
 (`Pr`, `E`, `simulate`), strategies and `under`, MITL; white space inside the layouts (the model is at token level).
 -/
 import UtapModel.Lemmas.Query
+import UtapModel.Lemmas.QuerySmc
 import UtapModel.Spec.OperatorTable
 
 namespace UtapModel.C03Query
@@ -48,5 +49,40 @@ example : (Query.po [] (.leadsTo gt1 x)).wf = true := by decide +kernel
 example : toksTextQ (qprint (.sub (.until false gt1 x))) = "A [ x > 1 U x ]" := by decide +kernel
 /-- `sup{p}:` with an empty list is not a query: the printed text is rejected -/
 theorem C03_query_empty_list_witness : parseQ (qprint (.opt 0 (.atom .tru) [])) = none := by decide +kernel
+
+/-! ### the statistical forms (Model/QuerySmc.lean): `Pr[B](<> e)`, `Pr[B]([] e)`, `Pr[B](a U b)`, `E[B](max: e)`, `simulate[B]{..}` -/
+
+open UtapModel.QuerySmc in
+/-- **tie T**: the productions of the statistical forms the model implements are productions of the current grammar, same callbacks -/
+theorem C03_smc_tables : ∀ p ∈ modelProdsSmc, p ∈ queryProds := by decide +kernel
+
+open UtapModel.QuerySmc in
+/-- **printing a statistical query and re-parsing it reproduces the query**: any bound type, with or without a run count, operands of
+    any size; the `[]` form has no second operand (the builder pushes `true`), `simulate` always carries its run count -/
+theorem C03_smc_roundtrip (q : SQuery) (h : q.wf = true) : parseS (sprint q) = some q := smc_roundtrip q h
+
+open UtapModel.QuerySmc in
+theorem C03_smc_idempotent (q q' : SQuery) (h : q.wf = true) (hp : parseS (sprint q) = some q') : sprint q' = sprint q := by
+  rw [C03_smc_roundtrip q h] at hp
+  injection hp with hp
+  rw [← hp]
+
+open UtapModel.QuerySmc in
+/-- a bound is read back in front of anything -/
+theorem C03_smc_bound_roundtrip (b : Bnd) (h : b.wf = true) (rest : List Tok) :
+    parseBnd (bndToks P b ++ .rb :: rest) = some (b, rest) := parseBnd_print b h rest
+
+open UtapModel.QuerySmc in
+example : (SQuery.pr false { kind := .expr (.atom (.ident "c")), bound := .bin (tokOfText "+") x (.atom (.nat 10)), runs := some 5 } gt1
+    (.pre (tokOfText "!") x)).wf = true := by decide +kernel
+open UtapModel.QuerySmc in
+example : (SQuery.sim { kind := .steps, bound := .atom (.nat 10), runs := some 1 } [x, gt1]).wf = true := by decide +kernel
+open UtapModel.QuerySmc in
+example : toksTextQ (sprint (.ex { kind := .time, bound := .atom (.nat 9), runs := none } true x)) = "E [ <= 9 ] ( max : x )" := by decide +kernel
+open UtapModel.QuerySmc in
+/-- the hypothesis on the `[]` form cannot be dropped: a second operand of `Pr[..]([] e)` is not printed -/
+theorem C03_smc_box_until_witness :
+    parseS (sprint (.pr true { kind := .time, bound := .atom (.nat 9), runs := none } x gt1)) ≠
+      some (.pr true { kind := .time, bound := .atom (.nat 9), runs := none } x gt1) := by decide +kernel
 
 end UtapModel.C03Query
